@@ -108,6 +108,9 @@ class Generator(CodeGenerator):
             self: Any, fcp: FcpV2, extension: Any
         ) -> Result[Nil, FcpError]:
             """Check if extension has a valid type."""
+            if extension.protocol != "can":
+                return Ok(())
+
             struct = fcp.get_struct(extension.type)
             size = sum([field.type.get_length() for field in struct.unwrap().fields])
             if size > 64:
